@@ -409,6 +409,20 @@ func init() {
 		}
 		return []Term{t}
 	}
+	stubs["github.com/samber/lo.Max"] = func(cx *callCtx) []Term {
+		n := cx.staticSliceLen(0)
+		if n < 1 || n > 4 {
+			return cx.freshResults("lomax")
+		}
+		e := cx.fr.eng
+		box := e.get(cx.st, e.boxComp(cx.argTs[0].Underlying().(*types.Slice).Elem()))
+		t := sel(box, fmt.Sprintf("(sidx %s 0)", cx.args[0]))
+		for j := 1; j < n; j++ {
+			x := sel(box, fmt.Sprintf("(sidx %s %d)", cx.args[0], j))
+			t = fmt.Sprintf("(ite (>= %s %s) %s %s)", t, x, t, x)
+		}
+		return []Term{t}
+	}
 	stubs["github.com/samber/lo.Contains"] = func(cx *callCtx) []Term {
 		e := cx.fr.eng
 		sl := cx.argTs[0].Underlying().(*types.Slice)
@@ -428,6 +442,49 @@ func init() {
 		vc := cx.fr.eng.vc
 		vc.decl("fn:selMatches", "(declare-fun selMatches (Iface Iface) Bool)")
 		return []Term{fmt.Sprintf("(selMatches %s %s)", cx.args[0], cx.args[1])}
+	}
+	// sync/atomic integer cells under a sequential reading (each method call is one step)
+	atomicCell := func(cx *callCtx) (types.Type, int) {
+		t := cx.argTs[0].Underlying().(*types.Pointer).Elem()
+		st := t.Underlying().(*types.Struct)
+		for i := 0; i < st.NumFields(); i++ {
+			if st.Field(i).Name() == "v" {
+				return t, i
+			}
+		}
+		cx.fr.unsup("atomic type without value field: %s", t)
+		return nil, 0
+	}
+	for _, tn := range []string{"Int64", "Int32", "Uint64", "Uint32"} {
+		tn := tn
+		stubs["sync/atomic.(*"+tn+").Load"] = func(cx *callCtx) []Term {
+			t, i := atomicCell(cx)
+			cx.fr.safety(cx.st, "nil", fmt.Sprintf("(not (= %s nil))", cx.args[0]), cx.instr, "atomic load through nil pointer")
+			return []Term{cx.fr.eng.loadField(cx.st, cx.args[0], t, i)}
+		}
+		stubs["sync/atomic.(*"+tn+").Store"] = func(cx *callCtx) []Term {
+			t, i := atomicCell(cx)
+			cx.fr.safety(cx.st, "nil", fmt.Sprintf("(not (= %s nil))", cx.args[0]), cx.instr, "atomic store through nil pointer")
+			cx.fr.eng.storeField(cx.st, cx.args[0], t, i, cx.args[1])
+			return nil
+		}
+		stubs["sync/atomic.(*"+tn+").Add"] = func(cx *callCtx) []Term {
+			t, i := atomicCell(cx)
+			e := cx.fr.eng
+			cx.fr.safety(cx.st, "nil", fmt.Sprintf("(not (= %s nil))", cx.args[0]), cx.instr, "atomic add through nil pointer")
+			nv := e.vc.name("atomicadd", "Int", fmt.Sprintf("(+ %s %s)", e.loadField(cx.st, cx.args[0], t, i), cx.args[1]))
+			e.storeField(cx.st, cx.args[0], t, i, nv)
+			return []Term{nv}
+		}
+		stubs["sync/atomic.(*"+tn+").CompareAndSwap"] = func(cx *callCtx) []Term {
+			t, i := atomicCell(cx)
+			e := cx.fr.eng
+			cx.fr.safety(cx.st, "nil", fmt.Sprintf("(not (= %s nil))", cx.args[0]), cx.instr, "atomic CAS through nil pointer")
+			cur := e.loadField(cx.st, cx.args[0], t, i)
+			okc := e.vc.name("cas", "Bool", eq(cur, cx.args[1]))
+			e.storeField(cx.st, cx.args[0], t, i, ite(okc, cx.args[2], cur))
+			return []Term{okc}
+		}
 	}
 	stubs["math/rand.Intn"] = func(cx *callCtx) []Term {
 		vc := cx.fr.eng.vc
@@ -503,6 +560,10 @@ var purePrefixes = []string{
 // isPureName: calls that neither read nor write the modelled heap in a way that matters
 // (logging, metrics, formatting, event publishing). Results are arbitrary.
 func isPureName(name string) bool {
+	// event constructors (pkg/.../events packages) only build Event values
+	if strings.HasPrefix(name, modPath+"/") && strings.Contains(name, "/events.") {
+		return true
+	}
 	for _, p := range purePrefixes {
 		if strings.HasPrefix(name, p) {
 			return true
